@@ -134,10 +134,6 @@ def rule_chunks(repo, rep, interp=None):
   rep.rule(R, 'chunks() writes a chunk id only at positions of the caller\'s '
            'array that carry a known label; the returned array is laid out '
            'over the caller\'s frame')
-  R4 = 'R-DOM:chunks-disjoint'
-  rep.rule(R4, 'chunk members are drawn with replace=False and removed from '
-           'the class pool before the next draw; an infeasible request '
-           'raises ValueError before any draw')
   cons = repo.get_class('Constraints')
   f, dom, flow = run_method(repo, cons, 'chunks', {'random_state': V(None)})
   if f is None:
@@ -168,106 +164,6 @@ def rule_chunks(repo, rep, interp=None):
     else:
       rep.refuted(R, 'Constraints.chunks:return', site(f, node),
                   'returned array is not laid out over the caller\'s frame')
-  # structural part
-  choice = [c for c in astutil.calls_in(f.node)
-            if isinstance(c.func, ast.Attribute) and c.func.attr == 'choice']
-  if len(choice) != 1:
-    rep.unknown(R4, 'Constraints.chunks', site(f), '%d draw sites'
-                % len(choice))
-    return
-  c = choice[0]
-  rp = [k for k in c.keywords if k.arg == 'replace']
-  if rp and isinstance(rp[0].value, ast.Constant) and \
-          rp[0].value.value is False:
-    rep.derived(R4, 'Constraints.chunks:replace', site(f, c))
-  else:
-    rep.refuted(R4, 'Constraints.chunks:replace', site(f, c),
-                'chunk members are drawn with replacement')
-  st_choice = astutil.stmt_of(f.node, c)
-  pm = astutil.parents(f.node)
-  block = None
-  par = pm.get(st_choice)
-  for fld in ('body', 'orelse'):
-    if st_choice in getattr(par, fld, []):
-      block = getattr(par, fld)
-  ok = False
-  if block is not None:
-    after = block[block.index(st_choice) + 1:]
-    drawn = st_choice.targets[0].id if isinstance(st_choice, ast.Assign) and \
-        isinstance(st_choice.targets[0], ast.Name) else None
-    for s_ in after:
-      if isinstance(s_, (ast.Continue, ast.Break, ast.Return)):
-        break
-      txt = ast.unparse(s_)
-      if isinstance(s_, ast.Expr) and isinstance(s_.value, ast.Call) and \
-              isinstance(s_.value.func, ast.Attribute) and \
-              s_.value.func.attr == 'difference_update' and drawn and \
-              drawn in txt:
-        ok = True
-        break
-      if isinstance(s_, ast.AugAssign) and isinstance(s_.op, ast.Sub) and \
-              drawn and drawn in txt:
-        ok = True
-        break
-  if ok:
-    rep.derived(R4, 'Constraints.chunks:pool-update', site(f, c))
-  else:
-    rep.refuted(R4, 'Constraints.chunks:pool-update', site(f, c),
-                'drawn members are not removed from the class pool before '
-                'the next draw')
-  # the feasibility bound itself: sum over classes of len(pool) // chunk_size
-  # the bound is the local compared with the parameter n_chunks in the guard
-  # of the ValueError that precedes the draws (found by role, not by name)
-  bound_name = None
-  loops0 = [w for w in ast.walk(f.node) if isinstance(w, (ast.While, ast.For))
-            and any(c is x for x in ast.walk(w))]
-  feas_ok = False
-  for r in [r for r in ast.walk(f.node) if isinstance(r, ast.Raise)]:
-    if 'ValueError' not in repo.exception_bases(f.module, r.exc):
-      continue
-    if not loops0 or r.lineno >= loops0[0].lineno:
-      continue
-    blk = astutil.parents(f.node).get(r)
-    if not isinstance(blk, ast.If) or r not in blk.body:
-      continue
-    t = blk.test
-    if isinstance(t, ast.Compare) and len(t.ops) == 1 and \
-            isinstance(t.left, ast.Name) and \
-            isinstance(t.comparators[0], ast.Name):
-      l, r_, op = t.left.id, t.comparators[0].id, t.ops[0]
-      if r_ == 'n_chunks' and isinstance(op, ast.Lt):
-        bound_name, feas_ok = l, True
-      elif l == 'n_chunks' and isinstance(op, ast.Gt):
-        bound_name, feas_ok = r_, True
-  bdefs = [n for n in ast.walk(f.node) if isinstance(n, ast.Assign) and
-           bound_name and ast.unparse(n.targets[0]) == bound_name]
-  if bdefs:
-    v = bdefs[-1].value
-    comps = [c_ for c_ in ast.walk(v)
-             if isinstance(c_, (ast.ListComp, ast.GeneratorExp))]
-    per_class = any(
-        isinstance(c_.elt, ast.BinOp) and isinstance(c_.elt.op, ast.FloorDiv)
-        and ast.unparse(c_.elt.right) == 'chunk_size' and
-        ast.unparse(c_.elt.left).startswith('len(') for c_ in comps)
-    pooled = any(isinstance(b, ast.BinOp) and isinstance(b.op, ast.FloorDiv)
-                 and ast.unparse(b.right) == 'chunk_size'
-                 for b in ast.walk(v)) and not per_class
-    if per_class:
-      rep.derived(R4, 'Constraints.chunks:bound', site(f, bdefs[-1]))
-    elif pooled:
-      rep.refuted(R4, 'Constraints.chunks:bound', site(f, bdefs[-1]),
-                  'the number of possible chunks is computed as %s: points '
-                  'of different classes are pooled, so an infeasible request '
-                  'is not rejected' % ast.unparse(v))
-    else:
-      rep.unknown(R4, 'Constraints.chunks:bound', site(f, bdefs[-1]),
-                  'feasibility bound %s not recognised' % ast.unparse(v))
-  if feas_ok:
-    rep.derived(R4, 'Constraints.chunks:feasibility', site(f))
-  else:
-    rep.refuted(R4, 'Constraints.chunks:feasibility', site(f),
-                'no ValueError under <number of possible chunks> < n_chunks '
-                'before the draws')
 
 
 def rule_structure(repo, rep):
@@ -355,9 +251,9 @@ def check(repo, rep, tier):
   rule_frames(repo, rep)
   interp = c07b.rule_chunks_interp(repo, rep)
   rule_chunks(repo, rep, interp)
-  rule_structure(repo, rep)
   c07b.rule_knn(repo, rep)
   c07b.rule_comb(repo, rep)
   c07b.rule_wrap_pairs(repo, rep)
   c07b.rule_pairs_interp(repo, rep)
+  c07b.rule_pos_neg_interp(repo, rep)
   c17.rule_rng(repo, rep, only_constraints=True)
